@@ -93,6 +93,11 @@ CLAIMED = {
    "DESIGN.md §4 C20",
    "Trusted: trampoline helper names callListenerBefore/After as anchors of the emission, AllocateBasicBlock results as the only never-return-block targets, table of listener fields.",
    "static: SSA value-origin classification of jump targets, dominance-based must-precede, statement-order typestate on arms, who-calls, close-path reachability x who-writes"),
+ "C02": ("other",
+   "Static decision of structural necessary conditions for every program, address, offset and memory size: every frontend arm of a load/store/SIMD/atomic instruction takes its address from the bounds-checking helper with exactly the access width its mnemonic dictates (114 arms, evaluated per opcode label by a small interpreter of the arm; oracle: the mnemonic in the wasm.Opcode constant name); bulk arms range-check each operand; the memory reload helper clears the elision cache's absolute addresses on every path and memory.grow reloads; folded constant extends keep their signedness in both backends (genuine amd64 defect found and fixed earlier); amd64 memory-operand emitters access exactly the width of their type/opcode/lane arm; Ireduce zero-extends because address folding uses raw registers of zero-extended values; the interpreter's lowering and execution arms use operations/accessors of the mnemonic's width (111 + 26 arms). The machine-code correctness of the emitted check, elision-cache soundness over arbitrary CFGs and the hasSize arithmetic (C14) are not decided here.",
+   "DESIGN.md §4 C02",
+   "Trusted: helper names memOpSetup/atomicMemOpSetup/boundsCheckInMemory as the only bounds-checking entry points, emitter-width table of the amd64 backend, wasm.Opcode constant names follow the spec mnemonics.",
+   "static: per-label abstract evaluation of dispatcher arms against a spec-width oracle, must-pass-through on SSA CFG, signedness agreement lint, emitter-width agreement"),
 }
 
 NOT_APPLICABLE = {
